@@ -23,6 +23,7 @@ let run lines =
   | "spec18" -> Model.run_spec18 lines
   | "aof" -> Model.run_aof lines
   | "spec02" -> Model.run_spec02 lines
+  | "snap" -> Model.run_snap lines
   | m -> failwith ("unknown mode " ^ m)
 
 let flush_script acc =
